@@ -96,12 +96,30 @@ func (a *agg) addCandidate(class string, val uint64, bin []byte, cs json.RawMess
 // classify names the root-cause class of an input that made a compile
 // allocate out of proportion / die / hang: the lying count or size field found
 // by the independent walker, else the last mutation operator.
+// allocSite extracts the innermost wazero function from the goroutine dump of a
+// child that died of memory exhaustion ("" if there is none).
+func allocSite(log []byte) string {
+	m := reWazeroFrame.FindSubmatch(log)
+	if m == nil {
+		return ""
+	}
+	f := string(m[1])
+	if i := strings.LastIndexByte(f, '/'); i >= 0 {
+		f = f[i+1:]
+	}
+	return f
+}
+
 func classify(bin []byte, ops []string, errText string) (string, uint64, string) {
 	if l, ok := FindLiar(bin); ok {
 		return l.Class, l.Val, fmt.Sprintf("field %s at offset %d declares %d with %d input bytes left", l.Class, l.Off, l.Val, l.Rem)
 	}
 	// the decoder rejected the input with an error of section X after allocating out of
 	// proportion: the allocation was made for something that section declares
+	if strings.HasPrefix(errText, "alloc-site:binary.") {
+		f := strings.TrimPrefix(errText, "alloc-site:")
+		return "in-decoder-" + f, 0, "no lying count/size field found by the walker; the child died allocating in " + f
+	}
 	if strings.HasPrefix(errText, "section ") {
 		if i := strings.IndexByte(errText, ':'); i > 8 {
 			return "in-section-" + errText[8:i], 0, "no lying count/size field found by the walker; the decoder rejected the input in section " + errText[8:i]
@@ -173,11 +191,12 @@ func (a *agg) allocViolation(cs json.RawMessage, bin []byte, ops []string, combo
 }
 
 var (
-	reOOMBlock = regexp.MustCompile(`cannot allocate (\d+)-byte block`)
-	reMallocgc = regexp.MustCompile(`runtime\.mallocgc\(0x([0-9a-f]+)`)
-	reCtl      = regexp.MustCompile(`C03-PROBE control-done ms=([0-9.]+)`)
-	reAbort    = regexp.MustCompile(`C03-ABORT kind=(\w+) phase=(\w*) ?([^\n]*)`)
-	rePhase    = regexp.MustCompile(`(?m)^C03@ (\w+) ([^\n]*)$`)
+	reWazeroFrame = regexp.MustCompile(`(?m)^github\.com/tetratelabs/wazero/(internal/[A-Za-z0-9_/]+\.[A-Za-z0-9_.()*]+)\(`)
+	reOOMBlock    = regexp.MustCompile(`cannot allocate (\d+)-byte block`)
+	reMallocgc    = regexp.MustCompile(`runtime\.mallocgc\(0x([0-9a-f]+)`)
+	reCtl         = regexp.MustCompile(`C03-PROBE control-done ms=([0-9.]+)`)
+	reAbort       = regexp.MustCompile(`C03-ABORT kind=(\w+) phase=(\w*) ?([^\n]*)`)
+	rePhase       = regexp.MustCompile(`(?m)^C03@ (\w+) ([^\n]*)$`)
 )
 
 func readTail(path string, n int64) []byte {
@@ -235,7 +254,7 @@ func (a *agg) crash(cs json.RawMessage, cr *core.Crash) {
 	case cr.Kind == "timeout":
 		c.Inconclusive("batch-watchdog")
 	case oom && phase == "compile":
-		a.allocViolation(cs, bin, ops, combo, fmt.Sprintf("child died during the compile with RLIMIT_AS=%d: %s", uint64(rlimitAS), cr.Detail), "")
+		a.allocViolation(cs, bin, ops, combo, fmt.Sprintf("child died during the compile with RLIMIT_AS=%d: %s", uint64(rlimitAS), cr.Detail), "alloc-site:"+allocSite(log))
 	case oom && phase == "exec":
 		// A guest can legitimately use a lot of memory (deep recursion of a function with
 		// tens of thousands of locals, ...) and the 4 GiB address-space cap is ours: only a
